@@ -256,6 +256,17 @@ struct Reg {
       s.reference = wall_ref; s.max_dev_quick = 1; s.max_dev_thorough = 2; s.pointwise_admissibility = true;
       s.name = "fans_sa_steady_wall_bounded";
       e1_systems().push_back(s);
+      // second base: Reynolds number 64 times higher (mu/64), wall-normal lattice resolving the inner layer -- viscous sublayer,
+      // buffer layer (where f_v2 < 0 and the S~ switch takes its second branch at the *calibrated* c_v2, c_v3), log layer
+      System h = s; h.name = "fans_sa_steady_wall_bounded[high-Re]"; h.solution = "fans_sa_steady_wall_bounded";
+      h.base = [](Params& P) { P.m["mu"] = dyround(P.m["mu"] / 64); };
+      h.points = [](int tier) {
+        std::vector<Pt> pts; const long xs[] = {410, 1331, 717, 246}, ys[] = {4, 16, 24, 32, 40, 48, 56, 64, 80, 128, 256, 12, 28, 36, 44, 52, 60, 72, 96, 192};
+        int nx = tier ? 4 : 2, ny = tier ? 20 : 11;
+        for (int i = 0; i < nx; i++) for (int j = 0; j < ny; j++) pts.push_back(Pt(dy(xs[i]), dy(ys[j]), 0, 0));
+        return pts;
+      };
+      e1_systems().push_back(h);
     }
   }
 } reg;
